@@ -213,6 +213,36 @@ def build(app):
             raise ombott.HTTPError(409, 'conflict-' + hm)
         return 'fixed-' + hm
 
+    @app.on_route('/panel')
+    def panel_hook(prefix):
+        # a route hook that hands a value on to the handler through the request's URL arguments
+        app.request.url_args['user'] = app.request.headers.get('X-M') or '?'
+
+    @app.route('/panel')
+    def panel(user=None):
+        note('panel:user', user)
+        note('panel:url_args', dict(app.request.url_args))
+        app.response.headers['X-User'] = str(user)
+        return 'panel of ' + str(user)
+
+    @app.route('/public')
+    def public(**kw):
+        note('public:kw', dict(kw))
+        note('public:url_args', dict(app.request.url_args))
+        return 'public'
+
+    @app.route('/session')
+    def session():
+        # a signed cookie with a mutable payload, updated in place and sent back
+        rq = app.request
+        who = rq.headers.get('X-M') or '?'
+        sess = rq.get_cookie('sess', secret='k3y') or {'visits': 0, 'seen': []}
+        sess['visits'] += 1
+        sess['seen'].append(who)
+        note('session', (sess['visits'], list(sess['seen'])))
+        app.response.set_cookie('sess', sess, secret='k3y')
+        return 'visits=%d seen=%s' % (sess['visits'], ','.join(sess['seen']))
+
     @app.route('/boom')
     def boom():
         # same URL for every request of this kind; what differs is a request header only
